@@ -77,6 +77,8 @@ type Item struct {
 	Reopen *Reopen `json:"reopen,omitempty"`
 	// Probe: capacity probe (allocate until failure in a rolled back tx)
 	Probe bool `json:"probe,omitempty"`
+	// Misuse: run the complete misuse matrix (C15) on the current state.
+	Misuse bool `json:"misuse,omitempty"`
 	// Tag marks items for twin runs: "T" items are removed in the twin.
 	Tag string `json:"tag,omitempty"`
 }
